@@ -467,7 +467,7 @@ func c46(c *Ctx) {
 				c.Expect(allowedFields[l.Name()], r, f, "hash-source-field-allowed:"+l.Name(), "the request hash depends on field "+l.Name()+", which is not a configured hash-policy input")
 			}
 			for _, p := range params {
-				c.Expect(p.Name() == "hashPolicies" || p.Name() == "rpcInfo" || p.Name() == "cs", r, f, "hash-source-param:"+p.Name(), "unexpected parameter feeding the hash")
+				c.Expect(paramName(p) == "hashPolicies" || paramName(p) == "rpcInfo" || paramName(p) == "cs", r, f, "hash-source-param:"+paramName(p), "unexpected parameter feeding the hash")
 			}
 			c.Expect(len(other) == 0, r, f, "hash-source-kinds", "the hash depends on a value of a kind this check does not classify")
 		}
